@@ -9,9 +9,10 @@ use splgen::lsp::{self, Change, Pos};
 use splgen::reflex::{self, RKind};
 use splgen::src::{fnv, Src};
 
-const ALPHABET: [&str; 28] = [
+// U+2028, U+2029, U+0085, VT and FF are line ends for Unicode but NOT for LSP (only LF, CRLF, CR are)
+const ALPHABET: [&str; 33] = [
     "a", "b", "x", "1", " ", " ", ";", "(", ")", ":=", "\n", "\n", "\r\n", "\r", "é", "€", "😀", "🦀", "//", "{", "}", "proc ",
-    "main", "var ", "\t", "\n\n", "int", "'",
+    "main", "var ", "\t", "\n\n", "int", "'", "\u{2028}", "\u{2029}", "\u{85}", "\u{b}", "\u{c}",
 ];
 
 pub fn gen_text(s: &mut Src, max: usize) -> String {
@@ -42,9 +43,17 @@ pub fn gen_pos(s: &mut Src, text: &str, labels: &mut Vec<&'static str>) -> Pos {
     }
 }
 
+#[derive(Clone, Debug)]
+pub enum Note {
+    /// one didChange notification
+    Changes(Vec<Change>),
+    /// didClose followed by a didOpen of the same URI with this text
+    Reopen(String),
+}
+
 pub struct Case {
     pub initial: String,
-    pub notes: Vec<Vec<Change>>,
+    pub notes: Vec<Note>,
     pub labels: Vec<&'static str>,
 }
 
@@ -56,6 +65,12 @@ pub fn decode(bytes: &[u8]) -> Case {
     let n = 1 + s.below(6);
     let mut notes = Vec::new();
     for _ in 0..n {
+        if s.chance(1, 8) {
+            labels.push("close-and-reopen");
+            text = gen_text(&mut s, 12);
+            notes.push(Note::Reopen(text.clone()));
+            continue;
+        }
         let k = 1 + s.below(3);
         let mut changes = Vec::new();
         for _ in 0..k {
@@ -84,7 +99,7 @@ pub fn decode(bytes: &[u8]) -> Case {
         if k > 1 {
             labels.push("batch");
         }
-        notes.push(changes);
+        notes.push(Note::Changes(changes));
     }
     Case { initial, notes, labels }
 }
@@ -92,11 +107,31 @@ pub fn decode(bytes: &[u8]) -> Case {
 fn describe_case(c: &Case) -> Value {
     json!({
         "initial": c.initial,
-        "notifications": c.notes.iter().map(|n| n.iter().map(|ch| json!({
-            "range": ch.range.map(|(a, b)| json!([[a.line, a.character], [b.line, b.character]])),
-            "text": ch.text,
-        })).collect::<Vec<_>>()).collect::<Vec<_>>(),
+        "notifications": c.notes.iter().map(|n| match n {
+            Note::Changes(n) => json!(n.iter().map(|ch| json!({
+                "range": ch.range.map(|(a, b)| json!([[a.line, a.character], [b.line, b.character]])),
+                "text": ch.text,
+            })).collect::<Vec<_>>()),
+            Note::Reopen(t) => json!({ "close_and_reopen": t }),
+        }).collect::<Vec<_>>(),
     })
+}
+
+/// apply one note to the client model and to the in-process server
+fn step(srv: &mut Srv, u: &Url, client: &mut String, note: &Note) {
+    match note {
+        Note::Changes(note) => {
+            for ch in note {
+                lsp::apply(client, ch);
+            }
+            srv.change(u, note.iter().map(|ch| srv::change_event(ch.range, &ch.text)).collect());
+        }
+        Note::Reopen(t) => {
+            srv.close(u);
+            srv.open(u, t);
+            *client = t.clone();
+        }
+    }
 }
 
 pub struct Sync;
@@ -121,10 +156,7 @@ impl Check for Sync {
         r.evals = 0;
         for (k, note) in case.notes.iter().enumerate() {
             r.evals += 1;
-            for ch in note {
-                lsp::apply(&mut client, ch);
-            }
-            srv.change(&u, note.iter().map(|ch| srv::change_event(ch.range, &ch.text)).collect());
+            step(&mut srv, &u, &mut client, note);
             if let Err(sig) = srv.settle() {
                 r.fail(sig, format!("the document broker dies on notification {}", k + 1), describe_case(&case));
                 break;
@@ -253,6 +285,10 @@ fn decode_explicit(bytes: &[u8]) -> Option<Case> {
     let initial = v["initial"].as_str()?.to_string();
     let mut notes = Vec::new();
     for n in v["notifications"].as_array()? {
+        if let Some(t) = n.get("close_and_reopen").and_then(|t| t.as_str()) {
+            notes.push(Note::Reopen(t.to_string()));
+            continue;
+        }
         let mut changes = Vec::new();
         for c in n.as_array()? {
             let range = if c["range"].is_null() {
@@ -263,7 +299,7 @@ fn decode_explicit(bytes: &[u8]) -> Option<Case> {
             };
             changes.push(Change { range, text: c["text"].as_str()?.to_string() });
         }
-        notes.push(changes);
+        notes.push(Note::Changes(changes));
     }
     Some(Case { initial, notes, labels: vec![] })
 }
@@ -286,10 +322,7 @@ impl Check for Explicit {
         srv.open(&u, &case.initial);
         let mut client = case.initial.clone();
         for (k, note) in case.notes.iter().enumerate() {
-            for ch in note {
-                lsp::apply(&mut client, ch);
-            }
-            srv.change(&u, note.iter().map(|ch| srv::change_event(ch.range, &ch.text)).collect());
+            step(&mut srv, &u, &mut client, note);
             if let Err(sig) = srv.settle() {
                 r.fail(sig, format!("the document broker dies on notification {}", k + 1), describe_case(&case));
                 return r;
@@ -368,7 +401,7 @@ pub fn run(ctx: &Ctx) -> i32 {
     finish(
         ctx,
         parts,
-        "initial texts over an alphabet with ASCII, 2-, 3- and 4-byte characters, LF, CRLF, lone CR, empty lines; 1-6 didChange notifications with 1-3 content changes each, ranges from the client model: valid positions, columns past the end of a line, lines past the end of the text, empty ranges, to-end-of-document, range-less full replacements; after every notification the server's text must equal the client model's; round trip of identifier ranges (prepareRename) through the client model; non-trivial = the texts contain a multi-unit character or a CR, or a position overshoots; distinct = distinct (initial, notifications)",
+        "initial texts over an alphabet with ASCII, 2-, 3- and 4-byte characters, LF, CRLF, lone CR, empty lines, and U+2028/U+2029/U+0085/VT/FF (not line ends under LSP); 1-6 notifications, each a didChange with 1-3 content changes or (1 in 8) a didClose followed by a didOpen of the same URI with a new text; ranges from the client model: valid positions, columns past the end of a line, lines past the end of the text, empty ranges, to-end-of-document, range-less full replacements; after every notification the server's text must equal the client model's; round trip of identifier ranges (prepareRename) through the client model; non-trivial = the texts contain a multi-unit character or a CR, or a position overshoots; distinct = distinct (initial, notifications)",
         &[
             "positions inside a surrogate pair or between CR and LF are never generated (LSP leaves them open)",
             "ranges are ordered (start <= end under the client model), as LSP requires",
